@@ -69,6 +69,28 @@ Proof.
     rewrite lookup_map_set. destruct (bs_eqb k' k); reflexivity.
 Qed.
 
+(* ... and the result exists only if EVERY configured template expands, name and value *)
+Lemma expand_extensions_all tpl user : forall m r,
+  expand_extensions expand tpl user m = Some r ->
+  forall k v, In (k, v) tpl -> expand k user <> None /\ expand v user <> None.
+Proof.
+  induction tpl as [|[tk tv] rest IH]; intros m r H k v I; simpl in *; [destruct I|].
+  destruct (expand tk user) as [k'|] eqn:EK; [|discriminate]. destruct (expand tv user) as [v'|] eqn:EV; [|discriminate].
+  destruct I as [I|I].
+  - inversion I; subst. rewrite EK, EV. split; discriminate.
+  - eapply IH; eauto.
+Qed.
+
+Lemma expand_extensions_complete tpl user : forall m,
+  (forall k v, In (k, v) tpl -> expand k user <> None /\ expand v user <> None) ->
+  expand_extensions expand tpl user m <> None.
+Proof.
+  induction tpl as [|[tk tv] rest IH]; intros m A; simpl; [discriminate|].
+  destruct (A tk tv (or_introl eq_refl)) as [K V].
+  destruct (expand tk user); [|contradiction]. destruct (expand tv user); [|contradiction].
+  apply IH. intros k v I. apply A. right. exact I.
+Qed.
+
 Lemma expand_extensions_nodup tpl user : forall m r,
   expand_extensions expand tpl user m = Some r -> NoDup (keys m) -> NoDup (keys r).
 Proof.
@@ -225,7 +247,7 @@ Qed.
    sealing model reaches from a freshly loaded configuration kc by any list l of injections. *)
 Theorem binding_fields st now lim q u c :
   certgen expand st now lim q = Issued u c ->
-  (exists level, proves now q u level) /\
+  (exists level, proves st now q u level) /\
   d_names c = [s_name st u] /\ q_target q = s_name st u /\
   (exists ed, q_key q = Some (d_key c, ed)) /\
   d_user_type c = true /\ d_is_ca c = false /\
@@ -251,7 +273,7 @@ Qed.
 Theorem binding kc l st now lim q u c :
   s_keys st = Seal.inject_all kc (Seal.sealed_init kc) l ->
   certgen expand st now lim q = Issued u c ->
-  (exists level, proves now q u level) /\
+  (exists level, proves st now q u level) /\
   d_names c = [s_name st u] /\ q_target q = s_name st u /\
   (exists ed, q_key q = Some (d_key c, ed)) /\
   d_user_type c = true /\ d_is_ca c = false /\
@@ -268,7 +290,7 @@ Qed.
 (* a request on behalf of any other name: whoever the request authenticates as, if that name is
    not byte for byte the URL segment nothing is issued; an otherwise qualified one gets 403 *)
 Theorem other_user_refused st now lim q u level iat :
-  check_auth now lim bAny (auth_request q) = Admit u level iat ->
+  check_auth now lim bAny (auth_request st q) = Admit u level iat ->
   s_name st u <> q_target q ->
   (exists code, certgen expand st now lim q = Refused code /\ 400 <= code) /\
   (s_sealed st = false -> qualifies (s_cfg st) level -> certgen expand st now lim q = Refused 403).
@@ -295,6 +317,58 @@ Proof.
     rewrite X. split; [intro k; apply ssh_extensions_spec; exact E|apply ssh_extensions_nodup].
   - apply x509_cert_fields in K. destruct K as [S _]. congruence.
   - apply x509_cert_fields in K. destruct K as [S _]. congruence.
+Qed.
+
+(* an SSH certificate is issued only if every configured extension template - name AND value -
+   expands for this user: one template the expander rejects (for everybody, or for this user name
+   only) and nothing is issued; no template is ever skipped *)
+Theorem failed_expansion_refused st now lim q u c :
+  certgen expand st now lim q = Issued u c -> d_ssh c = true ->
+  forall k v, In (k, v) (s_templates st) ->
+    expand k (s_name st u) <> None /\ expand v (s_name st u) <> None.
+Proof.
+  intros H SSH. apply certgen_issued in H. destruct H as [_ [l2 [iat [_ [_ [_ [_ [_ K]]]]]]]].
+  destruct K as [[_ K]|[[_ K]|[_ K]]].
+  - apply ssh_cert_fields in K. destruct K as [_ [_ [_ [_ [_ [_ [custom [E _]]]]]]]].
+    eapply expand_extensions_all; eauto.
+  - apply x509_cert_fields in K. destruct K as [S _]. congruence.
+  - apply x509_cert_fields in K. destruct K as [S _]. congruence.
+Qed.
+
+(* no two distinct authenticated users ever receive the same certified name: whatever the two
+   servers, requests, certificate types and key types, equal name lists (SSH principals / X.509 common
+   name) mean the same user name, byte for byte - nothing is cut, folded or normalised on the way
+   into the certificate *)
+Theorem names_injective st1 now1 lim1 q1 u1 c1 st2 now2 lim2 q2 u2 c2 :
+  certgen expand st1 now1 lim1 q1 = Issued u1 c1 ->
+  certgen expand st2 now2 lim2 q2 = Issued u2 c2 ->
+  d_names c1 = d_names c2 -> s_name st1 u1 = s_name st2 u2.
+Proof.
+  intros H1 H2 E. apply binding_fields in H1, H2.
+  destruct H1 as [_ [N1 _]]. destruct H2 as [_ [N2 _]]. rewrite N1, N2 in E. inversion E. reflexivity.
+Qed.
+
+(* the authenticated user's name is the ONLY identity in the certificate: no further principal, no
+   critical option, no DNS / e-mail / URI / address / directory / other-name entry, no further subject
+   attribute beside the organisations (the PKINIT name, d_krb, is the same user in the configured realm) *)
+Theorem no_other_names st now lim q u c :
+  certgen expand st now lim q = Issued u c ->
+  d_other_names c = [] /\ d_names c = [s_name st u] /\
+  match d_krb c with Some (r, p) => s_realm st = Some r /\ p = s_name st u | None => True end.
+Proof.
+  intros H. pose proof (binding_fields _ _ _ _ _ _ H) as [_ [N _]].
+  apply certgen_issued in H. destruct H as [_ [l2 [iat [_ [_ [_ [_ [_ K]]]]]]]].
+  destruct K as [[_ K]|[[_ K]|[_ K]]].
+  - unfold ssh_cert in K. destruct (q_key q) as [[k ed]|]; [|discriminate].
+    destruct (ed && negb (s_ed25519_ca st)); [discriminate|].
+    destruct (expand_extensions expand (s_templates st) (s_name st u) []); [|discriminate].
+    inversion K; subst; cbn. auto.
+  - unfold x509_cert in K. destruct (if false || q_add_groups q then s_groups st (s_name st u) else Some []); [|discriminate].
+    destruct (s_methods st (s_name st u)); [|discriminate]. destruct (q_key q) as [[k ed]|]; [|discriminate].
+    inversion K; subst; cbn. repeat split; auto. destruct (s_realm st); auto.
+  - unfold x509_cert in K. destruct (if true || q_add_groups q then s_groups st (s_name st u) else Some []); [|discriminate].
+    destruct (s_methods st (s_name st u)); [|discriminate]. destruct (q_key q) as [[k ed]|]; [|discriminate].
+    inversion K; subst; cbn. repeat split; auto. destruct (s_realm st); auto.
 Qed.
 
 (* X.509 certificates carry no SSH extensions; SSH ones no X.509 attributes *)
